@@ -169,7 +169,7 @@ func c20(r *Report) {
 				key := fmt.Sprintf("(*M/%s.Modifier).ModifyResponse: body #%d and Content-Length agree", m.name, n)
 				// the bytes attached
 				var content ssa.Value
-				for v := range w.backSlice(st.Val, flowOpt{Through: map[string]bool{"io/ioutil.NopCloser": true, "bytes.NewReader": true}}) {
+				for v := range w.backSlice(st.Val, flowOpt{Through: map[string]bool{"io/ioutil.NopCloser": true, "io.NopCloser": true, "bytes.NewReader": true}}) {
 					if c, ok := v.(*ssa.Call); ok && calleeName(c) == "bytes.NewReader" {
 						content = c.Call.Args[0]
 					}
@@ -367,7 +367,7 @@ func c20(r *Report) {
 				okClose = true
 				// every later Body store lies after the Close
 				for _, in := range instrs(f) {
-					if isBodyStore(in) && anyIn(w.backSlice(in.(*ssa.Store).Val, flowOpt{Through: map[string]bool{"io/ioutil.NopCloser": true, "bytes.NewReader": true}}), func(v ssa.Value) bool { return isCallValue(v, "(*bytes.Buffer).Bytes") }) {
+					if isBodyStore(in) && anyIn(w.backSlice(in.(*ssa.Store).Val, flowOpt{Through: map[string]bool{"io/ioutil.NopCloser": true, "io.NopCloser": true, "bytes.NewReader": true}}), func(v ssa.Value) bool { return isCallValue(v, "(*bytes.Buffer).Bytes") }) {
 						if !g.Before(c, in) {
 							okClose = false
 						}
